@@ -140,17 +140,37 @@ def gen(facts):
     pq, p0, p1 = facts.span_after(t, r"pub fn parse_query_string\(input: &str\) -> Result<Request, ParseRequestError> \{", rel)
     _need(re.search(r"\.\.Request::new\(request\.query\)", pq), facts, f"{rel}: parse_query_string does not build Request::new(request.query)")
     central = bool(GUARD_TOKENS.search(pq))
-    # the wire key of the operation name in the shared decoder (serde rename, if any)
-    m = re.search(r'(#\[serde\(([^\]]*)\)\]\s*)?pub operation_name: Option<String>,', pq)
-    _need(m, facts, f"{rel}: RequestSerde.operation_name not found")
-    opkey = "operation_name"
-    if m.group(2):
-        r = re.search(r'(?:rename|alias)\s*=\s*"([^"]+)"', m.group(2))
-        if r:
-            opkey = r.group(1)
-    sm = re.search(r'#\[serde\(\s*rename_all\s*=\s*"camelCase"\s*\)\]\s*struct RequestSerde', pq)
-    if sm:
-        opkey = "operationName"
+    # the wire fields of the shared decoder: struct RequestSerde, one row per field
+    # (rust name, wire keys = serde rename + aliases or the rust name, type, serde default)
+    st, s0, s1 = facts.span_after(pq, r"struct RequestSerde \{", rel)
+    _need("deny_unknown_fields" not in pq and "flatten" not in pq and "rename_all" not in pq, facts,
+          f"{rel}: RequestSerde carries a container attribute the decoder model does not cover")
+    fields = []
+    for fm in re.finditer(r'((?:\s*#\[[^\]]*\])*)\s*pub (\w+): ([^,\n]+),', st):
+        attrs, fname, fty = fm.group(1), fm.group(2), fm.group(3).strip()
+        keys = re.findall(r'(?:rename|alias)\s*=\s*"([^"]+)"', attrs)
+        other = re.sub(r'(?:rename|alias)\s*=\s*"[^"]+"|default|serde|[#\[\]\(\),\s]', "", attrs)
+        _need(other == "", facts, f"{rel}: RequestSerde.{fname} carries an attribute the decoder model does not cover: {attrs.strip()!r}")
+        if not re.search(r'rename\s*=', attrs):
+            keys = [fname] + keys
+        fields.append((fname, keys, fty, bool(re.search(r"\bdefault\b", attrs))))
+    _need([(f, t, d) for f, _, t, d in fields] ==
+          [("query", "String", True), ("operation_name", "Option<String>", False),
+           ("variables", "Option<String>", False), ("extensions", "Option<String>", False)],
+          facts, f"{rel}: RequestSerde fields are not query: String (default), operation_name / variables / extensions: Option<String>: {fields}")
+    keys_of = {f: k for f, k, _, _ in fields}
+    opkey = keys_of["operation_name"][0]
+    # how the decoded fields reach the Request: the operation name (and the query) must be
+    # carried verbatim; any expression around them is outside what the decoder model covers
+    lit, l0, l1 = facts.span_after(pq, r"Ok\(Request \{", rel)
+    flat = re.sub(r"\s+", " ", lit)
+    m = re.search(r"operation_name: ([^,]*(?:\([^)]*\)[^,]*)*),", flat)
+    _need(m, facts, f"{rel}: parse_query_string does not set Request.operation_name")
+    _need(m.group(1).strip() == "request.operation_name", facts,
+          f"{rel}: parse_query_string no longer carries the decoded operation name verbatim into the Request "
+          f"(operation_name: {m.group(1).strip()}); the GET decoder model (Some \"\" stays Some \"\") does not cover it")
+    _need(len(re.findall(r"\brequest\.operation_name\b", pq)) == 1 and len(re.findall(r"\brequest\.query\b", pq)) == 1, facts,
+          f"{rel}: parse_query_string touches request.operation_name / request.query elsewhere")
 
     rows = [("Axum", _axum(facts)), ("ActixWeb", _actix(facts)), ("Poem", _poem(facts)), ("Warp", _warp(facts)), ("Rocket", _rocket(facts))]
     spans = pq + "".join(r["span"] for _, r in rows)
@@ -176,5 +196,10 @@ def gen(facts):
            f"Definition get_guard_central_gen : bool := {'true' if central else 'false'}.\n\n"
            "(* wire key of the operation name: shared decoder / rocket form *)\n"
            f"Definition opname_key_pqs_gen : list N := {gstr(opkey)}.\n"
+           "(* every wire key of each field of the shared decoder's RequestSerde (serde rename + aliases) *)\n"
+           f"Definition query_keys_pqs_gen : list (list N) := [{'; '.join(gstr(k) for k in keys_of['query'])}].\n"
+           f"Definition opname_keys_pqs_gen : list (list N) := [{'; '.join(gstr(k) for k in keys_of['operation_name'])}].\n"
+           f"Definition variables_keys_pqs_gen : list (list N) := [{'; '.join(gstr(k) for k in keys_of['variables'])}].\n"
+           f"Definition extensions_keys_pqs_gen : list (list N) := [{'; '.join(gstr(k) for k in keys_of['extensions'])}].\n"
            f"Definition opname_key_rocket_gen : list N := {gstr('operationName')}.\n")
     return facts.write_out("GetGuardGen.v", out)
